@@ -3,7 +3,7 @@ import ast
 import re
 
 from ..astutil import dotted, calls, call_name, body_walk, walk_local, is_self_attr, kw
-from ..fdeval import FD, Obj, Raised, Inconclusive
+from ..fdeval import FD, Obj, Raised, Inconclusive, truth
 from ..loader import AnalysisError, norm, ancestors
 from ..symbols import Symbols
 from .c08 import classify_typed_equality
@@ -126,18 +126,52 @@ def r3_ordered_children(ctx, sym, mod):
                    "only for Add and Mult")
     mm = mod.func(CLS + 'map_merge')
     ctx.analysed_function(mod, mm)
-    appends = [c for c in calls(mm) if isinstance(c.func, ast.Attribute) and c.func.attr == 'append'
-               and norm(c.func.value) == 'new_maps']
-    ctx.require(appends, "map_merge no longer appends to new_maps")
-    for a in appends:
-        tests = [norm(x.test) for x in ancestors(a) if isinstance(x, ast.If)]
-        ctx.check('runSib > base_sib' in tests or 'base_sib < runSib' in tests, 'R3', 'map_merge:later-sibling', mod, a,
-                  "a child match is accepted although its sibling index is not strictly after the previous child's",
-                  "pattern `a = 1\\nb = 2` matches the program `b = 2\\na = 1` (children out of order) or both "
-                  "pattern statements map to the same student statement")
-        ctx.check(any('has_conflicts()' in t and t.startswith('not ') for t in tests), 'R3', 'map_merge:no-conflicts',
-                  mod, a, "a merged map with conflicting placeholder bindings is kept",
-                  "`_x_ = 1\\nprint(_x_)` matches `a = 1\\nprint(b)`")
+    # map_merge executed abstractly on model maps: every (base map, run map) pair it returns must pair a base map
+    # with a run map whose sibling index is strictly greater than *that base map's own* index, without conflicts
+    def model_map(name, conflicts_with=()):
+        o = Obj(name)
+
+        def merged(other):
+            m = Obj('merged(%s,%s)' % (name, other._name), parts=(o, other))
+            bad = other._name in conflicts_with
+            m.attrs['method:has_conflicts'] = lambda: bad
+            return m
+        o.attrs['method:new_merged_map'] = merged
+        o.attrs['method:has_conflicts'] = lambda: False
+        return o
+    cases = {
+        'one-base': ([('B0', 0)], [('R0', 0), ('R1', 1), ('R2', 2)], {}),
+        'two-bases-different-positions': ([('B0', 0), ('B2', 2)], [('R0', 0), ('R1', 1), ('R2', 2), ('R3', 3)], {}),
+        'later-base-first': ([('B3', 3), ('B1', 1)], [('R2', 2), ('R4', 4)], {}),
+        'conflicting-extension': ([('B0', 0)], [('R1', 1), ('R2', 2)], {'B0': ('R1',)}),
+        'nothing-later': ([('B5', 5)], [('R1', 1), ('R5', 5)], {}),
+    }
+    for cname, (bases, runs, confl) in cases.items():
+        bmaps = [model_map(n, confl.get(n, ())) for n, _ in bases]
+        rmaps = [[model_map(n)] for n, _ in runs]
+        fd = FD(max_steps=100000)
+        fd.calls['len'] = lambda x: len(x)
+        me = Obj('matcher')
+        try:
+            got = fd.call_function(mm, [bmaps, [i for _, i in bases], rmaps, [i for _, i in runs]], bound_self=me)
+        except Raised as e:
+            got = 'raises %s' % e.kind
+        except Inconclusive as e:
+            raise AnalysisError("C10 R3: map_merge outside the decidable fragment: %s" % e)
+        want = [(bn, rn, ri) for (bn, bi) in bases for (rn, ri) in runs
+                if ri > bi and rn not in confl.get(bn, ())]
+        if isinstance(got, dict):
+            pairs = [(m.attrs['parts'][0]._name, m.attrs['parts'][1]._name, sib)
+                     for m, sib in zip(got.get('new_maps', []), got.get('new_sibs', []))]
+        elif got is None:
+            pairs = []
+        else:
+            pairs = got
+        ctx.check(isinstance(pairs, list) and sorted(pairs) == sorted(want), 'R3', 'map_merge:' + cname, mod, mm,
+                  "map_merge(%s, %s) extends %s; only %s pair a base map with a strictly later, conflict-free "
+                  "sibling" % (bases, runs, pairs, want),
+                  "pattern `a = 1\nb = 2` matches the program `b = 2\na = 1` (children out of order), both pattern "
+                  "statements map to the same student statement, or `_x_ = 1\nprint(_x_)` matches `a = 1\nprint(b)`")
     bh = mod.func(CLS + 'binflex_helper')
     ctx.analysed_function(mod, bh)
     appends = [c for c in calls(bh) if isinstance(c.func, ast.Attribute) and c.func.attr == 'append']
@@ -175,9 +209,14 @@ def r4_single_binding(ctx, sym):
     ctx.analysed_function(mod, fn)
     sl = sym.find_class(ASTMAP, 'AstSymbolList')
     for ids, want in ((['a'], 0), (['a', 'a'], 0), (['a', 'b'], 1), (['a', 'a', 'b'], 1), (['a', 'b', 'a'], 1)):
-        fd = FD()
-        fd.calls['AstSymbolList'] = lambda: fd.instantiate('AstSymbolList', {
-            '__init__': sl.methods['__init__'], 'append': sl.methods['append']}, closed=False)
+        from ..fdeval import module_resolver
+        fd = FD(max_steps=100000, resolver=module_resolver(sym, mod))
+
+        def new_symbol_list():
+            o = fd.instantiate('AstSymbolList', dict(sl.methods), closed=False)
+            o.attrs['__classdef__'] = sl.node
+            return o
+        fd.calls['AstSymbolList'] = new_symbol_list
         fd.calls['len'] = lambda x: len(x)
         me = Obj('map', conflict_keys=[])
         table = {}
@@ -191,65 +230,156 @@ def r4_single_binding(ctx, sym):
                 # AstSymbolList is iterated / membership-tested: model it as a plain list holder
                 fd2 = fd
                 last = fd.call_function(fn, ['_x_', sym_obj, table], bound_self=me)
-        except Inconclusive:
-            last = None
+        except Inconclusive as e:
+            raise AnalysisError("C10 R4: add_x_to_sym_table outside the decidable fragment: %s" % e)
         except Raised as e:
             last = ('raised', e.kind)
-        if last is None:
-            break
         ctx.check(last == want, 'R4', 'add_x_to_sym_table%s' % ids, mod, fn,
                   "binding _x_ to identifiers %s yields %r conflict(s), expected %d" % (ids, last, want),
                   "`_x_ = 1\\nprint(_x_)` against `%s = 1\\nprint(%s)`" % (ids[0], ids[-1]))
-    else:
-        last = 'ok'
-    if last is None:
-        # the symbol list wrapper is outside the interpreter's fragment: fall back to the structural reading
-        ok = any(isinstance(n, ast.If) and norm(n.test) == 'value.id != other.id' and
-                 any('conflict_keys.append(key)' in norm(s) for s in n.body) for n in ast.walk(fn))
-        ctx.check(ok, 'R4', 'add_x_to_sym_table:conflict-test', mod, fn,
-                  "no `if value.id != other.id: conflict_keys.append(key)`",
-                  "`_x_ = 1\\nprint(_x_)` matches `a = 1\\nprint(b)`")
-    hc = mod.func('AstMap.has_conflicts')
-    rets = [n for n in body_walk(hc) if isinstance(n, ast.Return)]
-    ctx.check(len(rets) == 1 and norm(rets[0].value) in ('len(self.conflict_keys) > 0', 'bool(self.conflict_keys)'),
-              'R4', 'has_conflicts', mod, hc, "has_conflicts is not `len(self.conflict_keys) > 0`",
-              "conflicting bindings are not noticed")
-    mw = mod.func('AstMap.merge_map_with')
-    ctx.analysed_function(mod, mw)
-    for table, adder in (('symbol_table', 'add_var_to_sym_table'), ('func_table', 'add_func_to_sym_table'),
-                         ('class_table', 'add_class_to_sym_table')):
-        ok = any(isinstance(n, ast.For) and norm(n.iter) == 'other.%s.items()' % table and
-                 any(isinstance(c.func, ast.Attribute) and c.func.attr == adder for c in calls(n))
-                 for n in body_walk(mw))
-        ctx.check(ok, 'R4', 'merge_map_with:' + table, mod, mw,
-                  "merging maps copies %s without re-adding its symbols through %s, so conflicts between the two maps "
-                  "are not detected" % (table, adder),
-                  "`_x_ + 1` in one statement and `_x_ * 2` in the next bind _x_ to different variables")
-    # ownership: a map never adopts a table object of another map (later merges would mutate both)
-    cls = mod.cls('AstMap')
-    tables = ('mappings', 'symbol_table', 'exp_table', 'func_table', 'class_table', 'conflict_keys')
-    n_alias = 0
-    for f in [x for x in cls.body if isinstance(x, ast.FunctionDef)]:
-        params = [a.arg for a in f.args.args][1:]
-        for n in ast.walk(f):
-            if isinstance(n, ast.Assign) and any(isinstance(t, ast.Attribute) and isinstance(t.value, ast.Name)
-                                                 and t.value.id == 'self' and t.attr in tables for t in n.targets):
-                v = n.value
-                n_alias += 1
-                alias = isinstance(v, ast.Attribute) and isinstance(v.value, ast.Name) and v.value.id in params \
-                    and v.attr in tables
-                ctx.check(not alias, 'R4', '%s:aliases:%s' % (f.name, norm(n.targets[0])), mod, n,
-                          "`%s` makes this map share the table object of another map; every alternative extension of "
-                          "one partial match then mutates the same table and the last binding wins for all of them" %
-                          norm(n),
-                          "pattern f(__a__, __b__) against f(1, 2, 3): the match that pairs __b__ with 2 reports "
-                          "__b__ = 3")
-    ctx.floor('R4', 'table assignments in AstMap', n_alias, 5)
-    for adder in ('add_var_to_sym_table', 'add_func_to_sym_table', 'add_class_to_sym_table'):
-        f = mod.func('AstMap.' + adder)
-        ok = any(isinstance(c.func, ast.Attribute) and c.func.attr == 'add_x_to_sym_table' for c in calls(f))
-        ctx.check(ok, 'R4', adder + ':uses-add_x', mod, f, "%s bypasses add_x_to_sym_table" % adder,
-                  "bindings of this table are never checked for conflicts")
+    # AstMap as a whole, executed abstractly: maps are built through add_var_to_sym_table / merge_map_with /
+    # new_merged_map and asked has_conflicts(); a placeholder bound to two different names must be a conflict however
+    # the two bindings came together, a conflict must survive later merges, and merging must not alias tables
+    from ..fdeval import module_resolver
+    map_cls, sym_cls = mod.cls('AstMap'), mod.cls('AstSymbol')
+    for name in ('has_conflicts', 'merge_map_with', 'new_merged_map', 'add_var_to_sym_table'):
+        ctx.analysed_function(mod, mod.func('AstMap.' + name))
+
+    def session():
+        fd = FD(max_steps=400000, resolver=module_resolver(sym, mod))
+
+        def new_obj(clsnode, name):
+            def make(*a, **k):
+                o = Obj(name)
+                o.attrs['__classdef__'] = clsnode
+                init = [m for m in clsnode.body if isinstance(m, ast.FunctionDef) and m.name == '__init__']
+                if init:
+                    fd.call_function(init[0], list(a), k, bound_self=o)
+                return o
+            return make
+        fd.calls['AstMap'] = new_obj(map_cls, 'AstMap')
+        fd.calls['AstSymbol'] = new_obj(sym_cls, 'AstSymbol')
+        fd.calls['AstSymbolList'] = new_obj(sl.node, 'AstSymbolList')
+
+        def b_isinstance(o, t):
+            ts = t if isinstance(t, tuple) else (t,)
+            for x in ts:
+                if x == 'CaitNode' and isinstance(o, Obj) and o._name.startswith('CaitNode'):
+                    return True
+                if isinstance(x, str) and isinstance(o, Obj) and o._name == x:
+                    return True
+                if isinstance(x, type) and not isinstance(o, Obj) and isinstance(o, x):
+                    return True
+            return False
+        fd.calls['isinstance'] = b_isinstance
+        fd.calls['type'] = lambda o: o._name if isinstance(o, Obj) else type(o)
+        fd.calls['getattr'] = lambda o, n, *d: o.attrs[n] if isinstance(o, Obj) and n in o.attrs else (
+            d[0] if d else (_ for _ in ()).throw(Raised('AttributeError', n)))
+        inner = fd.resolver
+        fd.resolver = lambda n: 'CaitNode' if n == 'CaitNode' else inner(n)
+        return fd
+
+    def student(name):
+        return Obj('CaitNode<%s>' % name, ast_name='Name', astNode=Obj('ast.Name', _id=name, id=name), _id=name,
+                   lineno=1)
+
+    def run_map(fd, build):
+        try:
+            return build(fd)
+        except Inconclusive as e:
+            raise AnalysisError("C10 R4: AstMap outside the decidable fragment: %s" % e)
+        except Raised as e:
+            return 'raises %s (%s)' % (e.kind, e.detail)
+
+    def bind(fd, m, key, name):
+        fd.call_method(m, 'add_var_to_sym_table', [key, student(name)])
+
+    def conflicts(fd, m):
+        return truth(fd.call_method(m, 'has_conflicts', []))
+    scenarios = {}
+
+    def sc(name, want):
+        def deco(f):
+            scenarios[name] = (f, want)
+            return f
+        return deco
+
+    @sc('same-key-different-names-merged', True)
+    def _(fd):
+        m1, m2 = fd.calls['AstMap'](), fd.calls['AstMap']()
+        bind(fd, m1, '_x_', 'a')
+        bind(fd, m2, '_x_', 'b')
+        return conflicts(fd, fd.call_method(m1, 'new_merged_map', [m2]))
+
+    @sc('same-key-same-name-merged', False)
+    def _(fd):
+        m1, m2 = fd.calls['AstMap'](), fd.calls['AstMap']()
+        bind(fd, m1, '_x_', 'a')
+        bind(fd, m2, '_x_', 'a')
+        return conflicts(fd, fd.call_method(m1, 'new_merged_map', [m2]))
+
+    @sc('different-keys-merged', False)
+    def _(fd):
+        m1, m2 = fd.calls['AstMap'](), fd.calls['AstMap']()
+        bind(fd, m1, '_x_', 'a')
+        bind(fd, m2, '_y_', 'b')
+        return conflicts(fd, fd.call_method(m1, 'new_merged_map', [m2]))
+
+    @sc('conflict-survives-a-later-merge', True)
+    def _(fd):
+        m1, m2 = fd.calls['AstMap'](), fd.calls['AstMap']()
+        bind(fd, m1, '_x_', 'a')
+        bind(fd, m1, '_x_', 'b')
+        bind(fd, m2, '_y_', 'c')
+        return conflicts(fd, fd.call_method(m1, 'new_merged_map', [m2]))
+
+    @sc('conflict-in-the-other-map-survives', True)
+    def _(fd):
+        m1, m2 = fd.calls['AstMap'](), fd.calls['AstMap']()
+        bind(fd, m1, '_y_', 'c')
+        bind(fd, m2, '_x_', 'a')
+        bind(fd, m2, '_x_', 'b')
+        return conflicts(fd, fd.call_method(m1, 'new_merged_map', [m2]))
+
+    @sc('in-place-merge-detects', True)
+    def _(fd):
+        m1, m2 = fd.calls['AstMap'](), fd.calls['AstMap']()
+        bind(fd, m1, '_x_', 'a')
+        bind(fd, m2, '_x_', 'b')
+        fd.call_method(m1, 'merge_map_with', [m2])
+        return conflicts(fd, m1)
+
+    @sc('merged-map-does-not-alias-its-sources', False)
+    def _(fd):
+        m1, m2 = fd.calls['AstMap'](), fd.calls['AstMap']()
+        bind(fd, m1, '_x_', 'a')
+        bind(fd, m2, '_y_', 'c')
+        merged = fd.call_method(m1, 'new_merged_map', [m2])
+        bind(fd, merged, '_x_', 'b')        # extending the merged map ...
+        return conflicts(fd, m1) or conflicts(fd, m2)   # ... must not change the maps it was built from
+
+    @sc('expression-table-not-shared-with-sources', False)
+    def _(fd):
+        m1, m2 = fd.calls['AstMap'](), fd.calls['AstMap']()
+        ins_a = Obj('CaitNode<__a__>', astNode=Obj('ast.Name', id='__a__', _id='__a__'))
+        ins_b = Obj('CaitNode<__b__>', astNode=Obj('ast.Name', id='__b__', _id='__b__'))
+        fd.call_method(m1, 'add_exp_to_sym_table', [ins_a, student('e1')])
+        merged = fd.call_method(m2, 'new_merged_map', [m1])
+        fd.call_method(merged, 'add_exp_to_sym_table', [ins_b, student('e2')])
+        return '__b__' in m1.attrs['exp_table'] or '__b__' in m2.attrs['exp_table']
+
+    @sc('merge-with-None-is-a-no-op', False)
+    def _(fd):
+        m1 = fd.calls['AstMap']()
+        bind(fd, m1, '_x_', 'a')
+        fd.call_method(m1, 'merge_map_with', [None])
+        return conflicts(fd, m1)
+    for name, (build, want) in scenarios.items():
+        got = run_map(session(), build)
+        ctx.check(got is want, 'R4', 'AstMap:' + name, mod, mod.func('AstMap.merge_map_with'),
+                  "scenario %s: has_conflicts() is %r, expected %r" % (name, got, want),
+                  "`_x_ + 1` in one statement and `_x_ * 2` in the next bind _x_ to different variables, and the "
+                  "match is still returned")
 
 
 def r5_placeholders(ctx, sym, mod):
